@@ -271,6 +271,37 @@ theorem C13_only_plain (table : List Entry) (name : Bytes) (s : Sel) (it : Item)
           · cases hx
       · cases h
 
+/-- **C13_complete.** Everything beneath a selected directory is listed for it: each regular file and each directory of the path
+    table that lies strictly below the selection's (physical) path appears under the selection's manifest name with its own size -
+    whatever else is selected, however the names collide. (A selected link to a directory is given by the harness with the physical
+    path of its target: since repo fix for C13 the scan walks it; before, `walkable = false` listed such a directory as empty.) -/
+theorem C13_complete (table : List Entry) (name : Bytes) (s : Sel) (mt : Nat) (hs : s.top = .dir mt true)
+    (e : Entry) (he : e ∈ table) (suffix : List Bytes) (hp : isStrictPrefix s.abs e.path = some suffix) :
+    (∀ size m, e.kind = .file size m → (⟨name ++ 47 :: joinSlash suffix, size, m, false⟩ : Item) ∈ itemsOf table name s) ∧
+    (∀ m, e.kind = .dir m → (⟨name ++ 47 :: joinSlash suffix, 0, m, true⟩ : Item) ∈ itemsOf table name s) := by
+  constructor
+  · intro size m hk
+    unfold itemsOf
+    rw [hs]
+    simp only [if_true]
+    apply List.mem_cons_of_mem
+    exact List.mem_filterMap.mpr ⟨e, he, by simp [hp, hk]⟩
+  · intro m hk
+    unfold itemsOf
+    rw [hs]
+    simp only [if_true]
+    apply List.mem_cons_of_mem
+    exact List.mem_filterMap.mpr ⟨e, he, by simp [hp, hk]⟩
+
+/-- the scan as it was for a selected link to a directory (`walkable = false`): the directory itself and nothing beneath it -/
+theorem C13_complete_refuted_before_fix (table : List Entry) (name : Bytes) (s : Sel) (mt : Nat) (hs : s.top = .dir mt false) :
+    itemsOf table name s = [⟨name, 0, mt, true⟩] := by
+  unfold itemsOf; rw [hs]; simp
+
+/-- premises satisfiable -/
+example : (⟨[100, 47, 102], 3, 7, false⟩ : Item) ∈
+    itemsOf [⟨[[112], [102]], .file 3 7⟩] [100] ⟨[100], [[112]], .dir 1 true⟩ := by decide
+
 /-- **C13_resolver.** A manifest path `name/suffix` resolves to the selection that was given that name. -/
 theorem C13_resolver (names : List Bytes) (sels : List Sel) (k : Nat) (n : Bytes) (s : Sel)
     (hn : names.Nodup) (hk1 : names[k]? = some n) (hk2 : sels[k]? = some s) :
